@@ -7,7 +7,10 @@ use std::ffi::{c_void, CString};
 use std::io::{Error, ErrorKind};
 use std::mem::size_of;
 use std::path::Path;
+#[cfg(not(feature = "verif-hooks"))]
 use std::sync::atomic;
+#[cfg(feature = "verif-hooks")]
+use crate::verif::atomic;
 use std::{fs, ptr};
 
 use std::io::Seek;
@@ -49,7 +52,10 @@ pub struct ShmWriter {
 
     /// A raw pointer to the ClockBoundError data mapped in memory. This structure follows the
     /// ShmHeader and contains the information required to compute a bound on clock error.
+    #[cfg(not(feature = "verif-hooks"))]
     ceb: *mut ClockErrorBound,
+    #[cfg(feature = "verif-hooks")]
+    ceb: crate::verif::WPtr,
 }
 
 impl ShmWriter {
@@ -75,11 +81,15 @@ impl ShmWriter {
         // that there is only one writer running on the system and writing to `path`. Consequently,
         // it is safe to wipe clean and then update. No-one will attempt to write to the segment
         // even if this process is scheduled out.
+        #[cfg(feature = "verif-hooks")]
+        crate::verif::point("new.probe", 0, 0, 0);
         if ShmWriter::is_usable_segment(path).is_err() {
             // Note that wiping the file sets the version to 0, which is used to indicate the
             // readers that the memory segment is not usable yet.
             ShmWriter::wipe(path, segsize)?
         }
+        #[cfg(feature = "verif-hooks")]
+        crate::verif::point("new.mmap", 0, 0, 0);
 
         // Memory map the file.
         let addr = ShmWriter::mmap_segment_at(path, segsize)?;
@@ -94,7 +104,11 @@ impl ShmWriter {
             let ceb: *mut ClockErrorBound = addr.add(size_of::<ShmHeader>()).cast();
             (generation, version, ceb)
         };
+        #[cfg(feature = "verif-hooks")]
+        let ceb = crate::verif::WPtr(ceb);
 
+        #[cfg(feature = "verif-hooks")]
+        crate::verif::point("new.mapped", 0, 0, 0);
         let writer = ShmWriter {
             segsize,
             addr,
@@ -119,7 +133,32 @@ impl ShmWriter {
             version.store(1_u16, atomic::Ordering::Relaxed);
         }
 
+        #[cfg(feature = "verif-hooks")]
+        crate::verif::point("new.done", 0, 0, 0);
         Ok(writer)
+    }
+
+    /// Build a writer over a segment held in memory owned by the caller (verification only).
+    ///
+    /// Mirrors the tail of `new()`: the layout version is written, nothing is unmapped on drop.
+    ///
+    /// # Safety
+    /// `segment` must be 8 bytes aligned, valid for reads and writes of a ShmHeader followed by a
+    /// ClockErrorBound, and outlive the writer.
+    #[cfg(feature = "verif-hooks")]
+    pub unsafe fn verif_from_raw(segment: *mut u8) -> ShmWriter {
+        let generation = ptr::addr_of_mut!((*segment.cast::<ShmHeader>()).generation);
+        let version = ptr::addr_of_mut!((*segment.cast::<ShmHeader>()).version);
+        let ceb: *mut ClockErrorBound = segment.add(size_of::<ShmHeader>()).cast();
+        let writer = ShmWriter {
+            segsize: 0,
+            addr: segment.cast(),
+            version,
+            generation,
+            ceb: crate::verif::WPtr(ceb),
+        };
+        (*writer.version).store(1_u16, atomic::Ordering::Relaxed);
+        writer
     }
 
     /// Check whether the memory segment already exist and is usable.
@@ -172,6 +211,8 @@ impl ShmWriter {
             }
         }
 
+        #[cfg(feature = "verif-hooks")]
+        crate::verif::point("wipe.create", 0, 0, 0);
         // Opens the file in write-only mode. Create a file if it does not exist, and truncate it
         // if it does.
         let mut file = std::fs::File::create(path)?;
@@ -191,11 +232,23 @@ impl ShmWriter {
         };
 
         // Write the ShmHeader
+        #[cfg(feature = "verif-hooks")]
+        crate::verif::point("wipe.magic0", 0, 0, 0);
         file.write_u32::<NativeEndian>(SHM_MAGIC[0])?; // Magic number 0
+        #[cfg(feature = "verif-hooks")]
+        crate::verif::point("wipe.magic1", 0, 0, 0);
         file.write_u32::<NativeEndian>(SHM_MAGIC[1])?; // Magic number 1
+        #[cfg(feature = "verif-hooks")]
+        crate::verif::point("wipe.size", 0, 0, 0);
         file.write_u32::<NativeEndian>(size)?; // Segsize
+        #[cfg(feature = "verif-hooks")]
+        crate::verif::point("wipe.version", 0, 0, 0);
         file.write_u16::<NativeEndian>(0)?; // Version
+        #[cfg(feature = "verif-hooks")]
+        crate::verif::point("wipe.generation", 0, 0, 0);
         file.write_u16::<NativeEndian>(0)?; // Generation
+        #[cfg(feature = "verif-hooks")]
+        crate::verif::point("wipe.body", 0, 0, 0);
 
         // Zero the rest of the segment
         let remaining = segsize - size_of::<ShmHeader>();
@@ -215,7 +268,11 @@ impl ShmWriter {
         }
 
         // Sync all and drop (close) the descriptor
+        #[cfg(feature = "verif-hooks")]
+        crate::verif::point("wipe.sync", 0, 0, 0);
         file.sync_all()?;
+        #[cfg(feature = "verif-hooks")]
+        crate::verif::point("wipe.done", 0, 0, 0);
 
         Ok(())
     }
@@ -306,6 +363,11 @@ impl Drop for ShmWriter {
     /// TODO: revisit to see if this can be refactored into the MmapGuard logic implemented on the
     /// ShmReader.
     fn drop(&mut self) {
+        // A zero-sized segment tracks memory owned by a verification harness, nothing to unmap.
+        #[cfg(feature = "verif-hooks")]
+        if self.segsize == 0 {
+            return;
+        }
         unsafe {
             nix::sys::mman::munmap(self.addr, self.segsize).expect("munmap");
         }
